@@ -14,6 +14,11 @@ import Orb.GeoJSONExt
   Input geometries are written by `gsN`: nil rings / lines / polygons (`n`), typed-nil and
   nil-interface collection members — read into `Orb.CoreNil.NGeom` (`ngeom`).
 
+  White-box round (harness/c02_wb.go): `hook <sub-op> …` (the case again with pass-through
+  CustomJSONMarshaler / CustomJSONUnmarshaler installed, hook calls counted per step), `own item+`
+  (returned and input buffers belong to the caller), `val item` (every form of holding a value);
+  item = G <gsN> | T <gsN> | F… | FC… | H….
+
   VERDICTS.  `propfail` outranks `diff` — except for the labels of KNOWN findings (`knownLabels`):
   those are emitted only when implementation and model agree on the WHOLE case (documents and every
   decode outcome; the model predicts the documented behaviour too), otherwise the case is a `diff`.
@@ -968,6 +973,281 @@ def handleSeq (inp out : Toks) : String :=
      | _, none => "bad seq output")
   | _ => "bad seq input"
 
+/-! ### white-box round: hooks installed (`hook`), buffer ownership (`own`), forms of holding a value (`val`) -/
+
+/-- split a token list at the tokens equal to `sep` -/
+def splitTok (sep : String) (ts : Toks) : List Toks :=
+  let rec go (ts : Toks) (cur : Toks) (acc : List Toks) : List Toks :=
+    match ts with
+    | [] => (cur.reverse :: acc).reverse
+    | t :: rest => if t == sep then go rest [] (cur.reverse :: acc) else go rest (t :: cur) acc
+  go ts [] []
+
+/-- the handler of a sub-op that can run under the hooks -/
+def subHandler (sub : String) : Option (Toks → Toks → String) :=
+  match sub with
+  | "geom" => some handleGeom
+  | "typed" => some handleTyped
+  | "feat" => some handleFeat
+  | "fc" => some handleFC
+  | "hand" => some handleHand
+  | "seq" => some handleSeq
+  | _ => none
+
+/-- an expectation for one step of a case: the hook calls the dispatch prescribes (`none`: not
+    predicted — the step ends in an error somewhere inside) -/
+structure StepExp where
+  label : String
+  m : Option Nat := some 0
+  u : Option Nat := some 0
+
+def resOk {α : Type} : R α → Bool
+  | .ok _ => true
+  | _ => false
+
+/-- the calls of the two hooks in each step of a `geom` / `typed` / `feat` / `fc` case, both hooks
+    installed (`Orb.GeoJSON.hookMG`, `hookUG`: one call per `marshalJSON` / `unmarshalJSON` site reached) -/
+def stepExps (sub : String) (inp : Toks) (rmSame : Bool) : Option (List StepExp) :=
+  let bsonSteps : List StepExp := [{ label := "b" }, { label := "ub" }, { label := "brm" }]
+  let when (b : Bool) (n : Nat) : Option Nat := if b then some n else none
+  match sub with
+  | "geom" =>
+    (ngeom inp).map fun (n, _) =>
+      let jd := geomDocN .json n
+      let isNull := hookMG n == 0
+      [{ label := "mj", m := some (hookMG n) },
+       { label := "ug", u := if isNull then some 2 else when (resOk (geomOfDoc .json jd)) (1 + hookUG n) },
+       { label := "ugp", u := if isNull then some 0 else when (resOk (geomPtrOfDoc jd)) (hookUG n) },
+       { label := "rm", m := when rmSame (hookMG n) }] ++ bsonSteps
+  | "typed" =>
+    (ngeom inp).map fun (n, _) =>
+      let jd := geomDocN .json n
+      let ok := (match kindOfNG n with | some k => resOk (typedOfDoc .json k jd) | none => false)
+      [{ label := "mj", m := some 2 }, { label := "uj", u := when ok 3 }] ++ bsonSteps
+  | "feat" =>
+    match featureN inp with
+    | some (some (f, n), _) =>
+      let jd := featureDocN .json f n
+      let mj := 1 + hookMG n
+      some ([{ label := "mj", m := some mj },
+       { label := "uf", u := when (resOk (featureOfDoc .json false jd)) (1 + hookUG n) },
+       { label := "ufp", u := when (resOk (featurePtrOfDoc jd)) (1 + hookUG n) },
+       { label := "rm", m := when rmSame mj }] ++ bsonSteps)
+    | _ => none
+  | "fc" =>
+    (fcN inp).map fun ((x, ns), _) =>
+      let jd := fcDocN .json x ns
+      let top := (match jd with | .obj ms => ms.length | _ => 0)
+      let mj := 1 + ns.foldl (fun acc n => acc + 1 + hookMG n) 0
+      let uf := 1 + top + ns.foldl (fun acc n => acc + 1 + hookUG n) 0
+      [{ label := "mj", m := some mj },
+       { label := "uf", u := when (resOk (fcOfDoc .json false jd)) uf },
+       { label := "ufp", u := when (resOk (fcPtrOfDoc jd)) uf },
+       { label := "rm", m := when rmSame mj }] ++ bsonSteps
+  | _ => some []
+
+/-- one combination of installed hooks, as reported: `M|U|MU (same | outcome…) (## label m u)* ## total m u` -/
+structure Combo where
+  name : String
+  outcome : Option Toks      -- none: byte-identical to the outcome without hooks
+  steps : List (String × Nat × Nat)
+  total : Nat × Nat
+
+def parseCombo (ts : Toks) : Option Combo :=
+  match splitTok "##" ts with
+  | (name :: o) :: rest =>
+    let steps := rest.filterMap fun c =>
+      match c with
+      | [l, m, u] => (match m.toNat?, u.toNat? with | some a, some b => some (l, a, b) | _, _ => none)
+      | _ => none
+    if steps.length != rest.length then none else
+    match steps.reverse with
+    | ("total", tm, tu) :: more => some ⟨name, if o == ["same"] then none else some o, more.reverse, (tm, tu)⟩
+    | _ => none
+  | _ => none
+
+/-- `hook <sub-op> <input> => <outcome> || M … || U … || MU …`.
+    THE CLAUSE ("the documented JSON hooks are transparent"): with a pass-through
+    `CustomJSONMarshaler` and / or `CustomJSONUnmarshaler` installed the case has the outcome it has
+    without them (byte for byte; where Go map order shows — feat / fc / seq — the same verdict of the
+    sub-op's own handler), the side that is not installed is never called, the BSON steps call neither,
+    and each JSON step calls the installed hook exactly as often as the dispatch of geojson/json.go
+    prescribes for the value (a site that forgets the hook, tests the wrong variable or calls it twice
+    shows here).  Values in a known-finding class of the sub-op are judged for the hooks only. -/
+def handleHook (inp out : Toks) : String :=
+  match inp with
+  | sub :: rest =>
+    (match subHandler sub, splitTok "||" out with
+     | some h, [base, c1, c2, c3] =>
+       let baseV := h rest base
+       let baseOk := baseV.startsWith "ok" || knownLabels.contains baseV
+       if !baseOk then baseV else
+       (match [c1, c2, c3].mapM parseCombo with
+        | none => "bad hook combos"
+        | some combos =>
+          if combos.map (·.name) != ["M", "U", "MU"] then "bad hook combo names" else
+          let strict := sub == "geom" || sub == "typed" || sub == "hand"
+          let rmSame := (match splitSemi base with | _ :: _ :: _ :: r :: _ => r == ["same"] | _ => false)
+          let exps := (stepExps sub rest rmSame).getD []
+          let judge (c : Combo) : Option String :=
+            let hasM := c.name != "U"
+            let hasU := c.name != "M"
+            let v := (match c.outcome with | none => baseV | some o => h rest o)
+            if v != baseV then some s!"propfail hook-{c.name}-changes-outcome : {v}"
+            else if strict && c.outcome.isSome then some s!"propfail hook-{c.name}-changes-outcome-bytes"
+            else
+              let sums := c.steps.foldl (fun (a : Nat × Nat) s => (a.1 + s.2.1, a.2 + s.2.2)) (0, 0)
+              if !c.steps.isEmpty && sums != c.total then some s!"propfail hook-{c.name}-called-outside-a-step total {c.total.1} {c.total.2}"
+              else if !hasM && c.total.1 != 0 then some s!"propfail hook-{c.name}-marshaler-called-but-not-installed"
+              else if !hasU && c.total.2 != 0 then some s!"propfail hook-{c.name}-unmarshaler-called-but-not-installed"
+              else
+                c.steps.findSome? fun (l, m, u) =>
+                  match exps.find? (·.label == l) with
+                  | none => none
+                  | some e =>
+                    let wm := if hasM then e.m else some 0
+                    let wu := if hasU then e.u else some 0
+                    if wm.isSome && wm != some m then some s!"propfail hook-{c.name}-marshaler-calls step {l}: {m}, dispatch prescribes {wm.getD 0}"
+                    else if wu.isSome && wu != some u then some s!"propfail hook-{c.name}-unmarshaler-calls step {l}: {u}, dispatch prescribes {wu.getD 0}"
+                    else none
+          (match combos.findSome? judge with
+           | some f => f
+           | none =>
+             let cls := if baseV.startsWith "ok triv" then "triv-" else ""
+             s!"ok {cls}hook {sub}" ++ (if knownLabels.contains baseV then " known-class" else "")))
+     | none, _ => "bad hook sub-op"
+     | _, _ => "bad hook output")
+  | [] => "bad hook input"
+
+/-- a value of one of the five marshalled kinds, with the model's documents -/
+structure Item where
+  kind : String
+  jd : Json
+  bd : Json
+  md : Json            -- as a BSON member (struct field): `MarshalBSONValue` for a `*Geometry`
+  modOrder : Bool      -- the documents hold Go maps: BSON member order is not fixed
+
+def bsonMemberOf (m top : Json) : Json :=
+  match m with
+  | .null => .null
+  | _ => top
+
+def item : P Item := fun ts =>
+  match ts with
+  | "G" :: ts => (ngeom ts).map fun (n, ts) =>
+      (⟨"G", geomDocN .json n, geomDocN .bson n, bsonMemberOf (geomMemberN .bson n) (geomDocN .bson n), false⟩, ts)
+  | "T" :: ts =>
+    (match ngeom ts with
+     | some (n, ts) =>
+       if (kindOfNG n).isSome then some (⟨"T", geomDocN .json n, geomDocN .bson n, geomDocN .bson n, false⟩, ts) else none
+     | none => none)
+  | "F" :: _ =>
+    (match featureN ts with
+     | some (some (f, n), ts) => some (⟨"F", featureDocN .json f n, featureDocN .bson f n, featureDocN .bson f n, true⟩, ts)
+     | _ => none)
+  | "FC" :: _ => (fcN ts).map fun ((x, ns), ts) => (⟨"C", fcDocN .json x ns, fcDocN .bson x ns, fcDocN .bson x ns, true⟩, ts)
+  | "H" :: _ =>
+    (match hand ts with
+     | some (.nilPtr, _) => none
+     | some (h, ts) => some (⟨"H", hgTopJson h, hgTopBson h, hgMember .bson h, false⟩, ts)
+     | none => none)
+  | _ => none
+
+partial def items : Toks → Option (List Item)
+  | [] => some []
+  | ts =>
+    match item ts with
+    | some (i, rest) => (items rest).map (i :: ·)
+    | none => none
+
+def treeMatches (it : Item) (bson : Bool) (ts : Toks) (want : Json) : Bool :=
+  if bson && it.modOrder then treeIs ts (sameModOrder · want) else treeIs ts (· == want)
+
+def quads : Toks → Option (List (String × String × String × String))
+  | [] => some []
+  | a :: b :: c :: d :: rest => (quads rest).map ((a, b, c, d) :: ·)
+  | _ => none
+
+def pairs : Toks → Option (List (String × String))
+  | [] => some []
+  | a :: b :: rest => (pairs rest).map ((a, b) :: ·)
+  | _ => none
+
+/-- `own item+ => (J ; B ; (entry t kept again)* ; in (decoder flag)*) || …`.
+    THE CLAUSES ("a returned buffer belongs to the caller"): every marshal entry point of a value
+    (the methods called directly, json.Marshal, bson.Marshal, by value where the receiver is a value)
+    writes the model's document; a result keeps its bytes while later calls run; after the caller has
+    overwritten every result up to its capacity, every entry point returns what it returned the first
+    time; a decoded value does not change when the input it was decoded from is overwritten. -/
+def handleOwn (inp out : Toks) : String :=
+  match items inp with
+  | none => "bad input"
+  | some its =>
+    let outs := splitTok "||" out
+    if outs.length != its.length || its.isEmpty then "bad output" else
+    let judged := (its.zip outs).zipIdx.map fun ((it, o), i) =>
+      match splitSemi o with
+      | [jt, bt, fl, "in" :: ins] =>
+        (match quads fl, pairs ins with
+         | some qs, some ps =>
+           let agree := treeMatches it false jt it.jd && treeMatches it true bt it.bd
+           let memberNull := (match it.md with | .null => true | _ => false)
+           let bad := qs.findSome? fun ((name, t, k, a) : String × String × String × String) =>
+             let wantT := if (name == "bV" || name == "bw") && memberNull then "n" else "="
+             if t == "p" then some s!"propfail own-panic {name} value {i + 1}"
+             else if a != "1" then some s!"propfail returned-buffer-not-owned {name} value {i + 1}: overwriting a result changes a later result"
+             else if k != "1" then some s!"propfail returned-buffer-reused {name} value {i + 1}: a later call wrote into an earlier result"
+             else if t != wantT then some s!"propfail entry-points-disagree {name} {t} value {i + 1}"
+             else none
+           let badIn := ps.findSome? fun ((name, f) : String × String) =>
+             if f == "1" || f == "-" then none
+             else if f == "panic" then some s!"propfail own-panic decoder {name} value {i + 1}"
+             else some s!"propfail decoded-value-aliases-input {name} value {i + 1}"
+           (agree, bad.orElse fun _ => badIn, s!"{showJson it.jd} ; {showJson it.bd}")
+         | _, _ => (false, some "bad own flags", ""))
+      | _ => (false, some "bad own output", "")
+    match judged.findSome? (·.2.1) with
+    | some f => f
+    | none =>
+      if judged.all (·.1) then s!"ok own {its.length}" ++ (if its.any (fun i => i.kind == "G" || i.kind == "H") then " geometry" else "")
+      else "diff " ++ " || ".intercalate (judged.map (·.2.2))
+
+/-- the forms in which a `geojson.Geometry` VALUE is not addressable: its methods have pointer
+    receivers, both serialisers fall back to the raw struct (not a marshalled kind of the property:
+    the library hands out and holds `*Geometry` only) -/
+def geometryValueForms : List String := ["v", "tv", "mv", "iv", "av"]
+
+/-- `val item => J ; B ; BM ; (name flag)* [; D name tree]`.
+    THE CLAUSE: a Feature, a FeatureCollection, a typed helper value — by pointer or BY VALUE, top
+    level, as a struct field, slice / array element, map value, inside an interface — and a
+    `*Geometry` in every such position is written as the same document, which is the model's. -/
+def handleVal (inp out : Toks) : String :=
+  match item inp with
+  | some (it, []) =>
+    (match splitSemi out with
+     | jt :: bt :: mt :: fl :: more =>
+       (match pairs fl with
+        | none => "bad val flags"
+        | some ps =>
+          let agree := treeMatches it false jt it.jd && treeMatches it true bt it.bd && treeMatches it true mt it.md
+          let isG := it.kind == "G" || it.kind == "H"
+          let formOf (name : String) : String := String.ofList (name.toList.drop 1)
+          let bad := ps.findSome? fun ((name, f) : String × String) =>
+            if f == "=" then none
+            else if isG && geometryValueForms.contains (formOf name) then none
+            else
+              let d := (match more with | ("D" :: n :: tr) :: _ => if n == name then " : " ++ unw tr else "" | _ => "")
+              some s!"propfail value-marshal-differs {it.kind} {name} {f}{d}"
+          let raw := ps.any fun (q : String × String) => q.2 != "="
+          match bad with
+          | some f => f
+          | none =>
+            if !agree then s!"diff {showJson it.jd} ; {showJson it.bd} ; {showJson it.md}"
+            else if raw then s!"ok triv-val {it.kind} geometry-by-value-raw-struct"
+            else s!"ok val {it.kind}")
+     | _ => "bad output")
+  | _ => "bad input"
+
 def handle (ts : List String) : String :=
   match ts with
   | op :: rest =>
@@ -981,6 +1261,9 @@ def handle (ts : List String) : String :=
     | "hostile" => handleHostile inp out
     | "hand" => handleHand inp out
     | "seq" => handleSeq inp out
+    | "hook" => handleHook inp out
+    | "own" => handleOwn inp out
+    | "val" => handleVal inp out
     | _ => "bad op"
   | [] => "bad empty"
 
